@@ -23,10 +23,16 @@ impl SourceFileMap {
         self.file_line_ranges.push(SourceLineRanges::default());
     }
 
-    pub(crate) fn add(&mut self, basic_line: u64, ranges: SourceLineRanges) {
+    /// Registers the next file line. `defines_basic_line` tells whether the line was
+    /// actually stored in the program: a line that is empty or fails to tokenize must
+    /// not take over the mapping of an earlier definition of the same BASIC line,
+    /// which is the one diagnostics will refer to.
+    pub(crate) fn add(&mut self, basic_line: u64, ranges: SourceLineRanges, defines_basic_line: bool) {
         let file_line_number = self.file_line_ranges.len();
-        self.basic_lines_to_file_lines
-            .insert(basic_line, file_line_number);
+        if defines_basic_line {
+            self.basic_lines_to_file_lines
+                .insert(basic_line, file_line_number);
+        }
         self.file_line_ranges.push(ranges);
     }
 
